@@ -31,6 +31,11 @@ Theorem C05_branch_recorded_after_exceptions : forall pre id inner post st,
 Proof. exact pred_recorded_after. Qed.
 Print Assumptions C05_branch_recorded_after_exceptions.
 
+Theorem C05_instruction_recorded_after_exceptions : forall pre id inner post st,
+  enabled st = true -> In id (instrs (run true (pre ++ Track id inner false :: post) st)).
+Proof. exact instr_recorded_after. Qed.
+Print Assumptions C05_instruction_recorded_after_exceptions.
+
 (* What must not change: nothing recorded is lost, and a disabled tracer records nothing. *)
 Theorem C05_nothing_lost : forall fin evs st, le_state st (run fin evs st).
 Proof. exact run_mono. Qed.
@@ -38,7 +43,8 @@ Print Assumptions C05_nothing_lost.
 
 Theorem C05_disabled_records_nothing : forall fin id st,
   enabled st = false ->
-  run_ev fin (Line id) st = st /\ forall inner r, run_ev fin (Pred id inner r) st = st.
+  run_ev fin (Line id) st = st /\ (forall inner r, run_ev fin (Pred id inner r) st = st) /\
+  (forall inner r, run_ev fin (Track id inner r) st = st).
 Proof. exact disabled_records_nothing. Qed.
 Print Assumptions C05_disabled_records_nothing.
 
